@@ -18,6 +18,9 @@ fn rule(heads: Vec<HeadItem>, body: Vec<BodyItem>) -> Rule { Rule { heads, body 
 const T: Ty = Ty::U32;
 
 pub fn gen_byods<R: Src>(r: &mut R, _cfg: &GenCfg, ds: Ds, ternary: bool) -> Program {
+   // KF-13..: trrel_uf mishandles facts that arrive inside a looping stratum; with the finding excluded the tagged
+   // relation is only filled from inputs (non-recursive stratum) and read afterwards
+   let recursive = !(ds == Ds::TrRelUf && _cfg.excluded("KF-13"));
    let k_ty = if r.chance(50) { Ty::U32 } else { Ty::I32 };
    let mut p = Program::default();
    let rcols = if ternary { vec![k_ty, T, T] } else { vec![T, T] };
@@ -44,7 +47,7 @@ pub fn gen_byods<R: Src>(r: &mut R, _cfg: &GenCfg, ds: Ds, ternary: bool) -> Pro
    // ---- feeders
    p.rules.push(rule(vec![rh("k", v("x"), v("y"))], vec![ec("k", "x", "y")]));
    let mut n_feed = 0;
-   if r.chance(60) {
+   if recursive && r.chance(60) {
       // recursive through nxt: R(y, z) <-- R(x, y), nxt(y, z)
       if r.chance(40) {
          p.rules.push(rule(vec![rh("k", v("y"), v("z"))], vec![rc("k", av("y"), av("x")), cl("nxt", vec![av("y"), av("z")])]));
@@ -53,7 +56,7 @@ pub fn gen_byods<R: Src>(r: &mut R, _cfg: &GenCfg, ds: Ds, ternary: bool) -> Pro
       }
       n_feed += 1;
    }
-   if r.chance(40) {
+   if recursive && r.chance(40) {
       // through another relation
       p.rels.push(rel("mid", if ternary { vec![k_ty, T] } else { vec![T] }, false));
       if ternary {
@@ -65,7 +68,7 @@ pub fn gen_byods<R: Src>(r: &mut R, _cfg: &GenCfg, ds: Ds, ternary: bool) -> Pro
       }
       n_feed += 1;
    }
-   if r.chance(55) || n_feed == 0 {
+   if recursive && (r.chance(55) || n_feed == 0) {
       // staged arrival: tick advances inside R's stratum (it reads R), stage i facts arrive when tick(i) exists
       let mut scols = vec![Ty::I32];
       scols.extend(rcols.iter().cloned());
@@ -81,7 +84,7 @@ pub fn gen_byods<R: Src>(r: &mut R, _cfg: &GenCfg, ds: Ds, ternary: bool) -> Pro
       let body = if r.chance(50) { vec![cl("tick", vec![av("i")]), sc] } else { vec![sc, cl("tick", vec![av("i")])] };
       p.rules.push(rule(vec![rh("k", v("x"), v("y"))], body));
    }
-   if ternary && r.chance(50) {
+   if recursive && ternary && r.chance(50) {
       // facts move from key to key: keys pause and resume
       p.rules.push(rule(vec![rh("k2", v("x"), v("y"))], vec![rc("k", av("x"), av("y")), cl("knext", vec![av("k"), av("k2")])]));
    }
@@ -90,9 +93,20 @@ pub fn gen_byods<R: Src>(r: &mut R, _cfg: &GenCfg, ds: Ds, ternary: bool) -> Pro
    let mut oi = 0;
    for _ in 0..n_readers {
       oi += 1;
-      let inside = r.chance(25); // reader that feeds R again (inside the recursive stratum)
+      let inside = recursive && r.chance(25); // reader that feeds R again (inside the recursive stratum)
       let on = format!("out{oi}");
-      let pat = r.below(if ternary { 10 } else { 8 });
+      let mut pat = r.below(if ternary { 10 } else { 8 });
+      // KF-14 (known finding): the ternary trrel_uf adaptor fills its reverse maps from the inserted tuples only, so
+      // reads that do not bind the key miss implied (reflexive / closure) tuples; such reads are not generated for it
+      let key_bound_only = ds == Ds::TrRelUf && ternary && _cfg.excluded("KF-14");
+      if key_bound_only {
+         pat = match pat {
+            2 => 4,
+            3 => 5,
+            6 => 7,
+            p => p,
+         };
+      }
       // (body before R, R clause args, head columns)
       let (mut body, rargs, hcols): (Vec<BodyItem>, Vec<Arg>, Vec<&str>) = match (ternary, pat) {
          (false, 0) => (vec![], vec![av("x"), av("y")], vec!["x", "y"]),
@@ -139,7 +153,8 @@ pub fn gen_byods<R: Src>(r: &mut R, _cfg: &GenCfg, ds: Ds, ternary: bool) -> Pro
       }
    }
    // negation and counting in a later stratum
-   if r.chance(60) {
+   let key_bound_only = ds == Ds::TrRelUf && ternary && _cfg.excluded("KF-14");
+   if r.chance(60) && !key_bound_only {
       p.rels.push(rel("absent", vec![T, T], false));
       let neg = if ternary {
          BodyItem::Neg { rel: "rr".into(), args: vec![Arg::Wild, av("x"), av("y")] }
@@ -148,7 +163,7 @@ pub fn gen_byods<R: Src>(r: &mut R, _cfg: &GenCfg, ds: Ds, ternary: bool) -> Pro
       };
       p.rules.push(rule(vec![hd("absent", vec![v("x"), v("y")])], vec![cl("pairs", vec![av("x"), av("y")]), neg]));
    }
-   if r.chance(60) {
+   if r.chance(60) && !key_bound_only {
       p.rels.push(rel("cnt", vec![T, Ty::I32], false));
       let args = if ternary { vec![Arg::Wild, av("x"), Arg::Wild] } else { vec![av("x"), Arg::Wild] };
       p.rules.push(rule(
